@@ -1,6 +1,7 @@
 (* C09 -- soundness of the (repaired) strategies of _check_expand_removable for every binding of the
    symbolic dims, refutation of the shipped ones, and the index view of broadcasting. *)
-From Coq Require Import ZArith List Bool Lia ZifyBool.
+From Coq Require Import String ZArith List Bool Lia ZifyBool.
+
 Require Import OV.Shape.SymDim OV.Shape.SymDimProofs OV.Shape.Broadcast.
 Import ListNotations.
 Open Scope Z_scope.
@@ -137,11 +138,11 @@ Proof.
       simpl in Hrb. inversion Hrb; subst. simpl.
       inversion Hy as [|yd b y' cy' Dy Hy']; subst; simpl in *; [lia|].
       assert (P : bd c b = bd 1 b).
-      { eapply (s2_dim ed (DInt 1) yd rho 1 b c); eauto. apply denotes_one.
+      { eapply (s2_dim ed (DInt 1) yd rho 1 b c); eauto; try apply denotes_one.
         (* a = 1 *) }
       rewrite bd_1_l in P. rewrite P.
       assert (Q : rb ce' cy' = rb [] cy').
-      { apply (IH [] y' Hs) with (rho := rho) (t := ce'); simpl; auto; try lia. constructor. }
+      { apply (IH [] y' Hs) with (rho := rho) (t := ce'); simpl; auto; try lia; try constructor. }
       simpl in Q. rewrite Q. reflexivity.
     + destruct t as [|tb t'].
       * (* empty target: Expand is the identity *)
@@ -152,10 +153,10 @@ Proof.
         inversion Hy as [|yd b y' cy' Dy Hy']; subst; simpl in *.
         -- (* y exhausted *)
            assert (P : bd c 1 = bd a 1).
-           { eapply (s2_dim ed xd (DInt 1) rho a 1 c); eauto. apply denotes_one. }
+           { eapply (s2_dim ed xd (DInt 1) rho a 1 c); eauto; try apply denotes_one. }
            rewrite !bd_1_r in P. inversion P; subst.
            assert (Q : rb ce' [] = rb cx' []).
-           { apply (IH x' [] Hs) with (rho := rho) (t := t'); simpl; auto; try lia. constructor. }
+           { apply (IH x' [] Hs) with (rho := rho) (t := t'); simpl; auto; try lia; try constructor. }
            rewrite !rb_nil_r in Q. inversion Q; subst. reflexivity.
         -- assert (P : bd c b = bd a b) by (eapply (s2_dim ed xd yd rho a b c); eauto).
            assert (Q : rb ce' cy' = rb cx' cy').
@@ -299,7 +300,7 @@ Lemma s2_old_rank_refuted : exists e x y rho cx cy ce t,
   s2_old e x y = true /\ shape_denotes rho x cx /\ shape_denotes rho y cy /\ shape_denotes rho e ce /\
   bcast cx t = Some ce /\ pattern_shape cx t cy <> None /\ pattern_shape cx t cy <> rewritten_shape cx cy.
 Proof.
-  exists [DInt 1; DSym "N"], [DSym "N"], [DSym "N"], (fun _ => 2%nat), [2], [2], [1; 2], [1; 2].
+  exists [DInt 1; DSym "N"%string], [DSym "N"%string], [DSym "N"%string], (fun _ => 2%nat), [2], [2], [1; 2], [1; 2].
   split; [reflexivity|]. split; [sd|]. split; [sd|]. split; [sd|]. split; [reflexivity|].
   split; vm_compute; discriminate.
 Qed.
@@ -326,15 +327,15 @@ Qed.
 
 (* the hypotheses of the soundness theorems are satisfiable on non-trivial instances *)
 Example s1_fixed_example :
-  s1_fixed [4; 3; 1] [DSym "N"; DInt 1] [DInt 4; DInt 3; DSym "M"] = true
+  s1_fixed [4; 3; 1] [DSym "N"%string; DInt 1] [DInt 4; DInt 3; DSym "M"%string] = true
   /\ pattern_shape [3; 1] [4; 3; 1] [4; 3; 7] = Some [4; 3; 7].
 Proof. split; reflexivity. Qed.
 Example s2_fixed_example :
-  s2_fixed [DSym "N"; DInt 1] [DSym "N"; DInt 1] [DInt 1; DSym "B"] = true
+  s2_fixed [DSym "N"%string; DInt 1] [DSym "N"%string; DInt 1] [DInt 1; DSym "B"%string] = true
   /\ pattern_shape [0; 1] [0; 1] [1; 7] = Some [0; 7].
 Proof. split; reflexivity. Qed.
 Example s3_fixed_example :
-  s3_fixed [DSym "N"; DInt 1] [DInt 1; DSym "B"] [DSym "N"; DSym "B"] = true
+  s3_fixed [DSym "N"%string; DInt 1] [DInt 1; DSym "B"%string] [DSym "N"%string; DSym "B"%string] = true
   /\ pattern_shape [2; 1] [2; 1] [1; 3] = Some [2; 3].
 Proof. split; reflexivity. Qed.
 
